@@ -629,6 +629,10 @@ def add_point_axis(model, rng, mapped=0.5):
     return model
 
 
+def fnum(v):
+    return str(int(v)) if float(v) == int(v) else repr(float(v))
+
+
 def tie_values(model, rng):
     """Rounding ties in the deltas: every on-axis master on multiples of 10, the off-axis masters on n + 0.5. The delta of
     an off-axis master is x - sum(weight * delta) with weights like 0.3 / 0.7: mathematically n + 0.5, in floating point an ulp
@@ -867,7 +871,7 @@ def expected_names(N):
     return out
 
 
-def naming(model, rng, fea=0.5, collide=0.6, twin=False, source_records=0.35, labelnames=0.4):
+def naming(model, rng, fea=0.5, collide=0.6, twin=False, source_records=0.35, labelnames=0.4, stat=0.35):
     """A naming configuration: which fontinfo naming fields exist, axis names, instance names / PostScript names that
     collide with family, style, axis and each other's strings, names supplied through feature code."""
     fam = rng.choice(["Verif Sans", "Foo", "Regular", "Ab Cd Display", "Bold"])
@@ -1001,6 +1005,34 @@ def naming(model, rng, fea=0.5, collide=0.6, twin=False, source_records=0.35, la
             L += ["table name {", f'  nameid 9 "{s4}";', f'  nameid 256 "Custom string";', "} name;"]
             model["fea_names"].append({"where": "name id 9", "id": 9, "string": s4})
             model["fea_names"].append({"where": "a font-specific name", "id": 256, "string": "Custom string"})
+        if rng.random() < stat:
+            # a STAT table written in feature code replaces the generated one: axis names, axis value names and the elided
+            # fallback name are then the feature file's strings (some coincide with naming / instance / axis strings)
+            pool = ["Regular", "Bold", "Light", "Upright", exp["2"], exp["1"], "Inst A", "Caption"] + [a.get("label", a["name"]) for a in axes]
+            S = {"elided": rng.choice(["Regular", exp["2"], "Roman"]), "axes": {}, "values": []}
+            st = ["table STAT {", f'  ElidedFallbackName {{ name "{S["elided"]}"; }};']
+            tags = [a["tag"] for a in axes] + (["ital"] if rng.random() < 0.4 or not axes else [])
+            for i, t in enumerate(tags):
+                S["axes"][t] = rng.choice([t.upper() + " axis", rng.choice(pool)])
+                st.append(f'  DesignAxis {t} {i} {{ name "{S["axes"][t]}"; }};')
+            for t in tags:
+                ax = next((a for a in axes if a["tag"] == t), {"min": 0, "max": 1, "default": 0})
+                vals = sorted({ax["default"], ax["min"], ax["max"]} | {rng.randint(int(ax["min"]), int(ax["max"]))})
+                for v in rng.sample(vals, rng.randint(1, len(vals))):
+                    nm = rng.choice(pool)
+                    form = rng.random()
+                    if form < 0.5:
+                        loc = f"{t} {fnum(v)}"
+                    elif form < 0.75:
+                        loc = f"{t} {fnum(v)} {fnum(v - 10)} {fnum(v + 10)}"
+                    else:
+                        loc = f"{t} {fnum(v)} {fnum(v + 300)}"
+                    flag = " flag ElidableAxisValueName;" if rng.random() < 0.25 else ""
+                    st.append(f'  AxisValue {{ location {loc}; name "{nm}";{flag} }};')
+                    S["values"].append({"axis": t, "value": v, "name": nm})
+            st.append("} STAT;")
+            L += st
+            model["fea_stat"] = S
         model["features_fea"] = "\n".join(L) + "\n"
     return model
 
